@@ -463,6 +463,9 @@ def run(ctx):
 
     def extra(cases, iouts):
         res["lag"] = lag_check(ctx)
+        # a listing that spans several requests while a referrer is deleted (shared with C07)
+        import c07
+        res["paged"] = c07.paged_delete_check(ctx)
         bodies = set()
         for c in cases:
             bodies |= set(c["contents"])
@@ -478,3 +481,4 @@ def run(ctx):
         ctx.coverage.update(dict(histories_linearized=nlin, histories_not_linearizable=nfail, interleavings_run_on_model=norders))
         ctx.coverage["correspondence_mismatches"] = ctx.coverage.get("correspondence_mismatches", 0) + nfail
         ctx.coverage["referrers_mutex_schedules"], ctx.coverage["referrers_lag_observed"] = res.get("lag", (0, 0))
+        ctx.coverage["paged_listings_across_a_delete"], ctx.coverage["paged_listings_incomplete"] = res.get("paged", (0, 0))
